@@ -73,11 +73,15 @@ func BuildPlan(cfg plan.Configuration, schema *graphql.Schema, opText, opName st
 		return nil, report
 	}
 	postprocess.NewProcessor().Process(p)
-	sp, ok := p.(*plan.SynchronousResponsePlan)
-	if !ok {
-		return nil, fmt.Errorf("not a synchronous plan: %T", p)
+	switch x := p.(type) {
+	case *plan.SynchronousResponsePlan:
+		return x.Response, nil
+	case *plan.DeferResponsePlan:
+		// the response tree (with the deferred fields) and the coordinates live on the initial
+		// response; its fetch tree holds the initial fetches only
+		return x.Response.Response, nil
 	}
-	return sp.Response, nil
+	return nil, fmt.Errorf("not a synchronous or deferred plan: %T", p)
 }
 
 // Coord is an authorization coordinate (data source id + graph coordinate).
